@@ -246,7 +246,7 @@ pub enum QOp {
     Space,
 }
 
-pub fn run_queue(base: Instant, send_buf: usize, recv_buf: usize, seq: &[QOp]) -> Result<(Vec<(String, String)>, u64), String> {
+pub fn run_queue(base: Instant, send_buf: usize, recv_buf: usize, seq: &[QOp]) -> Result<(Vec<(String, String)>, u64, Vec<u64>), String> {
     guarded(|| {
         let mut cfg = cfg_by_name("default");
         cfg.client.dgram_send = Some(send_buf);
@@ -267,7 +267,14 @@ pub fn run_queue(base: Instant, send_buf: usize, recv_buf: usize, seq: &[QOp]) -
         };
         let mut hash = std::collections::hash_map::DefaultHasher::new();
         use std::hash::{Hash, Hasher};
+        let mut states: Vec<u64> = vec![];
         for (i, op) in seq.iter().enumerate() {
+            {
+                // reference-model state reached before this operation
+                let mut sh = std::collections::hash_map::DefaultHasher::new();
+                (send_buf, recv_buf, q.iter().map(|x| x.1).collect::<Vec<_>>(), blocked, rxq.iter().map(|x| x.1).collect::<Vec<_>>()).hash(&mut sh);
+                states.push(sh.finish());
+            }
             match op {
                 QOp::Send(len, drop) => {
                     tag += 1;
@@ -361,7 +368,7 @@ pub fn run_queue(base: Instant, send_buf: usize, recv_buf: usize, seq: &[QOp]) -
                 }
             }
         }
-        (viol, hash.finish())
+        (viol, hash.finish(), states)
     })
 }
 
@@ -401,7 +408,7 @@ pub fn main(args: &Args) -> ! {
     }
     explore::quiet_panics();
     let base = Instant::now();
-    let mut rep = Report::new("C16", args, "exploration");
+    let mut rep = Report::new("C16", args, "model_checking");
     let dl = deadline(if thorough { 1500 } else { 50 });
     rep.rule = "E3: (a) admission: for EVERY datagram size from 0 to max_size()+2 x MTU state {initial 1200, after discovery 1452, after black-hole fallback, initial with 2-byte packet numbers (140 packets unacknowledged)} x peer max_datagram_frame_size {absent, 1, 100, 1200, 65535} x send buffer {0, size-1, size, default} x local support on/off, send() must accept exactly when size <= min(max_size(), send buffer), the reported maximum must fit one packet on the current path and the peer's limit (independent arithmetic), an accepted datagram must appear exactly once on the wire in one DATAGRAM frame inside a UDP datagram <= current MTU and arrive byte-identical; (b) queue: every sequence of length <= d over send(len, drop), flush, recv, buffer-space query with len in {1, B/3, B/2, B} against a FIFO-with-byte-budget reference model (Blocked, DatagramsUnblocked, send_buffer_space, oldest-dropped-first on both sides); (c) integrity: E2 with <=k fate deviations over a mixed stream+datagram workload: every received datagram is byte-identical to one sent, each at most once. Non-trivial = admission cells at or next to a boundary, queue sequences with distinct answer traces; distinct counts those.".into();
     // (a)
@@ -508,20 +515,24 @@ pub fn main(args: &Args) -> ! {
         run_queue(base, *sb, *rb, &s)
     });
     rep.exhaustive &= !capped;
+    let mut model_states: std::collections::BTreeSet<u64> = Default::default();
     for ((sb, rb, seq), r) in &qres {
         rep.evaluations += 1;
         let rj = json!({"check":"c16","kind":"queue","send_buf":sb,"recv_buf":rb,"seq":seq.iter().map(|o| format!("{o:?}")).collect::<Vec<_>>()});
         match r {
             Err(e) => rep.violation(Violation { signature: "panic".into(), what: format!("queue {seq:?}: panic: {e}"), replay: rj }),
-            Ok((viol, h)) => {
+            Ok((viol, h, states)) => {
                 rep.distinct.insert(*h);
+                rep.transitions += states.len() as u64;
+                model_states.extend(states.iter().copied());
                 for (sig, what) in viol {
                     rep.violation(Violation { signature: sig.clone(), what: format!("send buffer {sb} receive buffer {rb} sequence {seq:?}: {what}"), replay: rj.clone() });
                 }
             }
         }
     }
-    rep.part("queue_model", json!({"depth": depth, "sequences": n_q, "executed": qres.len(), "capped": capped}));
+    rep.states = model_states.len() as u64;
+    rep.part("queue_model", json!({"distinct_model_states": model_states.len(), "model_steps_compared": rep.transitions, "depth": depth, "sequences": n_q, "executed": qres.len(), "capped": capped}));
     // (c)
     let cs = e2_integrity_cases(thorough);
     let alts: &[crate::sim::Fate] = if thorough { &FATE_ALTS } else { &FATE_ALTS3 };
